@@ -4,6 +4,8 @@ CONSTANTS
   Interleave = FALSE
   SeqParams <- SeqPlain
   Modes = {"Sign", "SignAndEncrypt"}
+  Splits = {"any"}
+  PreInjects = {"none"}
   Moves = {"damage"}
   Damages <- DamagesAll
   Injects = {}
